@@ -1,3 +1,4 @@
+// FAMILY: C42
 //! C42: parse_cpulist / workers_for. Cases: {"kind":"cpulist","s":..,"denotes":[..]?} | {"kind":"workers","work","pool"}
 use crate::common::*;
 use crate::rng::Rng;
